@@ -43,6 +43,7 @@ def run(prog, rep, tier):
     check_chaining(prog, r3)
     r4 = rep.rule("R14.4", "MatchOption coverage per set-typed condition")
     check_options(prog, r4)
+    check_string_set_quantifiers(prog, r4)
     r5 = rep.rule("R14.5", "prefix-set lookup considers all covering entries")
     check_prefix_lookup(prog, r5)
     r6 = rep.rule("R14.6", "daemon calls delete_policy / merging add_policy only behind the per-peer reference scan")
@@ -399,6 +400,52 @@ def check_options(prog, r):
             r.fail(efv.name, "options:%s" % v,
                    "Condition::%s accepts options %s but the evaluator only tests for %s: %s are evaluated identically"
                    % (v, sorted(accepted), sorted(tested), " and ".join(sorted(rest))), efv.loc())
+
+
+def check_string_set_quantifiers(prog, r):
+    """match_string_set(strs, patterns, opt): ANY = some value matches some pattern; ALL = every *pattern* is matched by
+    some value (the set's elements are the things that must all be present); INVERT = not ANY.  The outer iterator and
+    its quantifier decide the meaning: under All the outer call is `all` over `patterns` with an inner `any` over `strs`."""
+    k = prog.one(r"rustybgp_table::policy::match_string_set")
+    fv = view(prog, k)
+    r.analysed(fv.name)
+    brs = branches(fv)
+    rend = Renderer(fv, depth=14, through_names=True)
+    seen = {}
+    for bi, t in fv.calls(re.compile(r".*Iterator::(any|all)$")):
+        arm = None
+        for g, l, h in flat_guards(fv, bi, brs):
+            if g[0] == "discr" and g[2] and g[2].endswith("MatchOption") and len(l) == 1:
+                arm = next(iter(l))
+        if arm is None:
+            continue
+        meth = t["f"]["name"].split("::")[-1]
+        over = set(expr_vars(rend.operand(t["args"][0], 14))) & {"strs", "patterns"}
+        inner = set()
+        for a in t["args"]:
+            p_ = a.get("m") or a.get("c")
+            if p_ and not p_.get("p") and "{closure@" in fv.f["locals"][p_["l"]]:
+                for b3, si, s3 in fv.defs().get(p_["l"], []):
+                    if si != "t" and s3["rv"]["r"] == "agg" and s3["rv"].get("k") == "closure":
+                        for c_ in prog.ix[s3["rv"]["def"]]["calls"]:
+                            m_ = re.search(r"Iterator::(any|all)$", c_["f"].get("name", ""))
+                            if m_:
+                                inner.add(m_.group(1))
+        seen[arm] = (meth, "/".join(sorted(over)), "/".join(sorted(inner)))
+    want = {"All": ("all", "patterns", "any")}
+    for arm, w in want.items():
+        if arm not in seen:
+            r.unanalysable("match_string_set: no quantifier call recognised in the %s arm" % arm, fv.loc())
+        elif seen[arm] == w:
+            r.ok("match_string_set %s: every pattern is matched by some value (patterns.all(|r| strs.any(..)))" % arm)
+        else:
+            r.fail(fv.name, "string-set-quantifier:" + arm, "the %s arm evaluates %s over %s with an inner %s: ALL must mean every pattern of the set is matched by some value of the route "
+                   "(as written it also holds for a route with no values at all)" % (arm, seen[arm][0], seen[arm][1] or "?", seen[arm][2] or "?"), fv.loc())
+    for arm in ("Any", "Invert"):
+        if arm in seen and seen[arm][0] == "any" and seen[arm][2] == "any":
+            r.ok("match_string_set %s: some value matches some pattern%s" % (arm, " (negated)" if arm == "Invert" else ""))
+        elif arm in seen:
+            r.fail(fv.name, "string-set-quantifier:" + arm, "the %s arm is %s over %s with inner %s (want any/any)" % (arm, seen[arm][0], seen[arm][1], seen[arm][2]), fv.loc())
 
 
 def _match_arms(prog, fv):
